@@ -300,18 +300,8 @@ class C11(Check):
 
     @staticmethod
     def _build_pop(spec):
-        import numpy as np
-        from pyrates import CircuitTemplate, NodeTemplate, OperatorTemplate
-        from pyrates.frontend.template.population import PopulationTemplate, Connectivity
-        op = OperatorTemplate(name='lin', equations=["x' = -a*x + u"], variables={'x': 'output(0.0)', 'a': 1.0, 'u': 'input(0.0)'})
-        nd = NodeTemplate(name='n', operators=[op])
-        pops = {k: PopulationTemplate(name=k, node=nd, n=p['n'], params={'lin/a': list(p['a']), 'lin/x': list(p['x0'])})
-                for k, p in spec['pops'].items()}
-        conns = []
-        for c in spec['conns']:
-            W = c['W'] if not isinstance(c['W'], list) else np.array(c['W'])
-            conns.append(Connectivity(f"{c['s']}/lin/x", f"{c['t']}/lin/u", W, delays=c.get('delay'), spread=c.get('spread')))
-        return CircuitTemplate(name='c', populations=pops, connections=conns)
+        from checks.c09 import build_pop
+        return build_pop(spec, None)
 
     @staticmethod
     def _ref_pop(spec, dt, steps, np):
@@ -335,6 +325,15 @@ class C11(Check):
                         continue
                     src = [x[(c['s'], j)] for j in range(pops[c['s']]['n'])] if ci not in zmap else zmap[ci][2][-1]
                     W = c['W']
+                    if c.get('coup'):
+                        import math
+                        kk = c['coup']['kk']
+                        for i in range(q['n']):
+                            if c['coup']['kind'] == 'tanh':
+                                u[i] += sum(W[i][j] * kk * math.tanh(src[j]) for j in range(len(src)))
+                            else:
+                                u[i] += sum(W[i][j] * kk * (src[j] - x[(p, i)]) for j in range(len(src)))
+                        continue
                     for i in range(q['n']):
                         u[i] += (sum(W[i][j] * src[j] for j in range(len(src))) if isinstance(W, list) else W * sum(src))
                 for i in range(q['n']):
